@@ -24,7 +24,17 @@ def main():
     seed = int(os.environ.get("VERIF_SEED", "0") or 0)
     if a.replay:
         sys.exit(driver.replay(a.prop, a.replay))
-    sys.exit(driver.run_property(a.prop, a.tier, seed, only=a.only, workers=a.workers, verbose=a.v))
+    try:
+        code = driver.run_property(a.prop, a.tier, seed, only=a.only, workers=a.workers, verbose=a.v)
+    except (KeyboardInterrupt, SystemExit):
+        raise
+    except BaseException:  # a crash of the machinery itself is never a verdict about the property
+        import traceback
+
+        traceback.print_exc()
+        print("HARNESS-ERROR: the checker crashed (exit 3)")
+        code = 3
+    sys.exit(code)
 
 
 if __name__ == "__main__":
